@@ -57,8 +57,12 @@ type Scenario struct {
 	// JoinAfter: the full node is started when the aggregator has produced this many blocks (0: together).
 	JoinAfter int `json:"join_after"`
 	// RestartFull: the full node is stopped cleanly and started again once it has applied this many blocks (0: never).
-	RestartFull   int  `json:"restart_full,omitempty"`
-	CustomPayload bool `json:"custom_payload,omitempty"`
+	RestartFull int `json:"restart_full,omitempty"`
+	// RestartAgg: the aggregator is stopped cleanly and started again once it has produced this many blocks
+	// (0: never). Only drawn when the full node can also learn the chain from the DA layer: nothing makes a
+	// full node redial a restarted peer promptly.
+	RestartAgg    int    `json:"restart_agg,omitempty"`
+	CustomPayload bool   `json:"custom_payload,omitempty"`
 	KeyLabel      string `json:"key_label,omitempty"`
 }
 
@@ -313,8 +317,29 @@ func Run(sc Scenario, dir string) *Result {
 		return res
 	}
 	// phase 1: the aggregator produces (transactions are injected at the scripted points)
+	aggRestarted := false
 	ok, stalled := waitProgress(func() bool {
 		inject()
+		if sc.RestartAgg > 0 && !aggRestarted && produced() >= sc.RestartAgg {
+			aggRestarted = true
+			if !a.stop() {
+				res.Inconclusive = "aggregator did not stop within the stop window"
+				res.Labels = append(res.Labels, "aggregator-stop-slow")
+				return true
+			}
+			var err error
+			for try := 0; try < 20; try++ {
+				if err = a.start(sgn, mo); err == nil {
+					break
+				}
+				time.Sleep(100 * time.Millisecond) // the listening port of the previous instance may still be closing
+			}
+			if err != nil {
+				res.Inconclusive = "aggregator does not start again: " + err.Error()
+				return true
+			}
+			res.Labels = append(res.Labels, "agg-restarted")
+		}
 		if !bStarted && produced() >= sc.JoinAfter {
 			if !startB() {
 				return true
@@ -341,6 +366,8 @@ func Run(sc Scenario, dir string) *Result {
 	// A full node whose Run ends by itself (start-up cannot reach a peer yet, or a loop reported a fatal
 	// error) is started again, as a process supervisor would; giving up after a few attempts.
 	gaveUp := false
+	var streakStart time.Time
+	streakHeight := uint64(0)
 	bGone := func() bool {
 		ex, err := b.exited()
 		if !ex {
@@ -349,12 +376,18 @@ func Run(sc Scenario, dir string) *Result {
 		<-b.done
 		b.cancel()
 		b.cancel = nil
-		b.RunErr = append(b.RunErr, fmt.Sprintf("%v", err))
-		if len(b.RunErr) >= 6 {
+		if len(b.RunErr) < 12 {
+			b.RunErr = append(b.RunErr, fmt.Sprintf("%v", err))
+		}
+		// a streak of exits without any progress that lasts as long as a stall is a stall
+		if h := b.Height(); streakStart.IsZero() || h != streakHeight {
+			streakStart, streakHeight = time.Now(), h
+		}
+		if time.Since(streakStart) > StallWindow+StallConfirm {
 			gaveUp = true
 			return true
 		}
-		time.Sleep(200 * time.Millisecond)
+		time.Sleep(time.Second) // libp2p backs off from a peer it could not dial; the aggregator may be restarting
 		if !startB() {
 			return true
 		}
